@@ -444,6 +444,28 @@ pub enum Shorts {
     },
 }
 
+/// A `char` where a typed argument stands (C17: every scalar value is a `char` argument)
+#[derive(Debug, Command, PartialEq)]
+pub enum Chars {
+    Chr {
+        #[arg(short = 'o')]
+        opt: Option<char>,
+        c: char,
+    },
+}
+
+pub struct CharsSet;
+impl CmdSet for CharsSet {
+    type C = Chars;
+    const NAME: &'static str = "chars";
+    fn names() -> Vec<String> {
+        vec!["chr".to_string()]
+    }
+    fn parse<'a>(raw: RawCommand<'a>) -> Result<String, ParseError<'a>> {
+        <Chars as FromRaw<'a>>::parse(raw).map(|c| format!("{:?}", c))
+    }
+}
+
 pub struct ShortsSet;
 impl CmdSet for ShortsSet {
     type C = Shorts;
@@ -493,6 +515,35 @@ impl Autocomplete for TlNames {
         #[allow(irrefutable_let_patterns)]
         if let embedded_cli::autocomplete::Request::CommandName(name) = request {
             let mode = TL_PARTIAL.with(|p| p.get());
+            if mode == 4 || mode == 5 {
+                // the implementation works out the common continuation of its names itself, merges it once and says
+                // through the public mark_partial() whether more than one name stands behind it
+                let (common, count) = TL_NAMES.with(|n| {
+                    let mut common: Option<Vec<char>> = None;
+                    let mut count = 0;
+                    for cand in n.borrow().iter() {
+                        if cand.starts_with(name) {
+                            count += 1;
+                            let cont: Vec<char> = cand[name.len()..].chars().collect();
+                            common = Some(match common {
+                                None => cont,
+                                Some(c) => c.iter().zip(cont.iter()).take_while(|(a, b)| a == b).map(|(a, _)| *a).collect(),
+                            });
+                        }
+                    }
+                    (common.map(|c| c.into_iter().collect::<String>()), count)
+                });
+                if let Some(common) = common {
+                    if count >= 2 && mode == 4 {
+                        autocompletion.mark_partial();
+                    }
+                    autocompletion.merge_autocompletion(&common);
+                    if count >= 2 && mode == 5 {
+                        autocompletion.mark_partial();
+                    }
+                }
+                return;
+            }
             if mode == 1 {
                 autocompletion.mark_partial();
             }
